@@ -21,21 +21,24 @@ Provided (all hypotheses of the C03/C06/C11 theorems, discharged):
                             `Spec.ReduciblePos K m`: a weighted mean of values `≥ dab` is `≥ dab`;
                             Ward: `((sx+sa)·a + (sx+sb)·b − sx·dab)/(sa+sb+sx) ≥ dab`.
 * `FieldLaws.reduciblePos`  `ReduciblePos K m` for single, complete, average, weighted, Ward.
-* `ExactLaws.not_reducible_ward`
-                            why `ReduciblePos` and not `Reducible`: with all sizes `0` the formula
-                            evaluates `0/0 = 0` in a field, so `Spec.Reducible K .ward` (which
-                            quantifies over ALL sizes) is FALSE.  Size positivity is threaded through
-                            the run instead (`Lemmas/ReduciblePos.lean`, `C03_primitive_reduciblePos`).
-                            (The companion `ExactLaws.not_reducible_average` of the unclamped formula
-                            is GONE: since the `fix:` commit `method::average` clamps the mean from
-                            below by the smaller argument, and `Spec.Reducible α .average` is a theorem
-                            for every `OrderLaws α` and all sizes — `Spec.reducible_average`.)
+* (GONE) `ExactLaws.not_reducible_ward`, `ExactLaws.not_reducible_average`
+                            the size-`0` counterexamples to `Spec.Reducible K m` of the UNCLAMPED
+                            formulas (`0/0 = 0` in a field) are no longer theorems — they are FALSE
+                            of the repaired crate: since the first `fix:` commit `method::average`
+                            clamps the mean from below by the smaller argument, since the second one
+                            `method::ward` clamps the quotient from below by the smaller argument
+                            whenever the merged distance is not above it, and `Spec.Reducible α m`
+                            is a theorem for every `OrderLaws α` and ALL sizes
+                            (`Spec.reducible_average`, `Spec.reducible_ward`).  `ReduciblePos` stays
+                            as the hypothesis the size-threaded run theorems are stated with
+                            (`Lemmas/ReduciblePos.lean`, `C03_primitive_reduciblePos`); it is implied.
 -/
 import Kodama.Lemmas.FieldNum
 import Kodama.Lemmas.SpecLaws
 import Kodama.Lemmas.PrimGreedySpec
 import Kodama.Lemmas.ReduciblePos
 import Kodama.Lemmas.AverageExact
+import Kodama.Lemmas.WardExact
 import Mathlib.Tactic.Linarith
 import Mathlib.Tactic.Ring
 namespace Kodama
@@ -130,7 +133,8 @@ theorem FieldLaws.reduciblePos_average (L : FieldLaws K) : ReduciblePos K .avera
 theorem FieldLaws.reduciblePos_ward (L : FieldLaws K) : ReduciblePos K .ward := by
   intro dax dbx dab sa sb sx hsa hsb hsx _ _ _ h1 h2
   rw [L.lt_false] at h1 h2 ⊢
-  simp only [lw, Gen.ward, L.add, L.sub, L.mul, L.div, L.ofNat]
+  simp only [lw]
+  rw [L.ward_eq_formula dax dbx dab sa sb sx (by omega)]
   have ha : (0 : K) < (sa : K) := Nat.cast_pos.mpr hsa
   have hb : (0 : K) < (sb : K) := Nat.cast_pos.mpr hsb
   have hx : (0 : K) < (sx : K) := Nat.cast_pos.mpr hsx
@@ -150,17 +154,6 @@ theorem FieldLaws.reduciblePos (L : FieldLaws K) (m : Method) (hm : m.requiresSo
   | ward => exact L.reduciblePos_ward
   | centroid => exact absurd hm (by decide)
   | median => exact absurd hm (by decide)
-
-/-- `Spec.Reducible` (ALL sizes, zero included) is false for Ward in a field: `0/0 = 0 < 1`.
-(For average it was false too before the `fix:` commit of the crate; the clamp makes
-`Spec.Reducible α .average` true in every ordered number type, `Spec.reducible_average`.) -/
-theorem ExactLaws.not_reducible_ward (E : ExactLaws K) : ¬ Reducible K .ward := by
-  intro h
-  have := h 1 1 1 0 0 0 (E.noNaN _) (E.noNaN _) (E.noNaN _)
-    (E.field.lt_false.2 le_rfl) (E.field.lt_false.2 le_rfl)
-  rw [E.field.lt_false] at this
-  simp only [lw, Gen.ward, E.field.add, E.field.sub, E.field.mul, E.field.div, E.field.ofNat] at this
-  norm_num at this
 
 end reducible
 end Kodama
